@@ -539,8 +539,13 @@ def merge_sequences(sequences):
 
   cat_seq = music_pb2.NoteSequence()
 
+  total_time = 0
   for seq in sequences:
     cat_seq.MergeFrom(seq)
+    total_time = max(total_time, seq.total_time)
+  # MergeFrom keeps only the last sequence's total_time; the merged sequence
+  # lasts as long as its longest input.
+  cat_seq.total_time = total_time
 
   # Delete subsequence_info because we've joined several subsequences.
   cat_seq.ClearField('subsequence_info')
